@@ -17,7 +17,7 @@ package prolog
 //@ -- (*Interpreter).Exec: its contract is in verif_contracts_c20init.go (it also carries C15)
 
 //@ func (*Interpreter).QueryContext
-//@   property C15
+//@   property C15 C18
 //@   nosafety
 //@   trusted-frame
 //@   bind p = engine.NewParser#1
